@@ -340,6 +340,12 @@ func runCases(in, out string) error {
 			if err := compareExp(c, got, &res); err != nil {
 				return fmt.Errorf("line %d: %w", line, err)
 			}
+			// "EVERY ${...} reference is replaced": the same scalar somewhere else in the configuration tree -- an item
+			// of a list next to items that settle sooner or later, below nested maps and lists -- must resolve to one of
+			// its admissible outcomes too, and its neighbours to theirs (placement chosen from the case id)
+			if err := placed(c, &res); err != nil {
+				return fmt.Errorf("line %d: %w", line, err)
+			}
 		case "merge":
 			res.Cases++
 			res.Merge++
@@ -385,6 +391,84 @@ func checkTable(c tcase) error {
 		}
 		if want, ok := c.Kinds[n]; ok && want != k {
 			return fmt.Errorf("table %s: %s=%q is declared %s but parses as %s", c.Name, n, text, want, k)
+		}
+	}
+	return nil
+}
+
+// placed resolves the scalar of an "exp" case at another position of the document and compares value / error with the
+// admissible outcomes of the specification (the typed-field observations are made for the top-level placement only).
+// The neighbours are a literal (settles at once) and a single direct reference to a name every table... does not
+// need: the literal text "lit" and the escaped text "$$lit" (one round of un-escaping), both independent of the table.
+func placed(c tcase, res *result) error {
+	var doc map[string]any
+	var path []any
+	switch c.ID % 4 {
+	case 0:
+		doc, path = map[string]any{"w": []any{c.S, "lit"}}, []any{"w", 0}
+	case 1:
+		doc, path = map[string]any{"w": []any{"lit", c.S, "$$lit"}}, []any{"w", 1}
+	case 2:
+		doc, path = map[string]any{"w": map[string]any{"a": []any{map[string]any{"b": c.S}, "lit"}, "z": "lit"}}, []any{"w", "a", 0, "b"}
+	default:
+		doc, path = map[string]any{"w": []any{[]any{"$$lit", c.S}, "lit"}}, []any{"w", 0, 1}
+	}
+	src, _ := json.Marshal(doc)
+	r, err := newResolver([]string{"yaml:" + string(src)}, c.Def)
+	if err != nil {
+		return err
+	}
+	defer r.Shutdown(context.Background())
+	var got observation
+	conf, rerr := r.Resolve(context.Background())
+	var whole any
+	if rerr != nil {
+		got.Err, got.ErrText, got.ErrClass = true, rerr.Error(), classify(rerr)
+	} else {
+		whole = conf.ToStringMap()
+		var v any = whole
+		for _, k := range path {
+			switch kk := k.(type) {
+			case string:
+				m, _ := v.(map[string]any)
+				v = m[kk]
+			case int:
+				l, _ := v.([]any)
+				if kk < len(l) {
+					v = l[kk]
+				} else {
+					v = nil
+				}
+			}
+		}
+		got.Value = canon(v)
+	}
+	var wants []string
+	ok := false
+	for _, o := range c.Adm {
+		if matches(o, got) {
+			ok = true
+		}
+		if o.T == "err" {
+			wants = append(wants, "error")
+		} else if w, err := wantValue(o); err == nil {
+			wants = append(wants, w)
+		}
+	}
+	// the neighbours: untouched literal, un-escaped "$lit"
+	if rerr == nil {
+		flat := canon(whole)
+		if !strings.Contains(flat, canon("lit")) || (c.ID%2 == 1 && !strings.Contains(flat, canon("$lit"))) {
+			ok = false
+			got.AnyField = "neighbours: " + flat
+		}
+	}
+	if !ok {
+		got.StrField = fmt.Sprintf("placement %d: document %s", c.ID%4, src)
+		if len(res.Mismatches) < 400 {
+			res.Mismatches = append(res.Mismatches, mismatch{ID: c.ID, What: "placed", Got: got, Want: wants, Case: c})
+		} else {
+			res.Mismatches = append(res.Mismatches, mismatch{ID: c.ID, What: "placed"})
 		}
 	}
 	return nil
